@@ -11,58 +11,78 @@ Open Scope Z_scope.
 Record jx_spec := mkJx { jx_id : positive; jx_prio : Z; jx_sys : bool }.
 Record tx_spec := mkTx { tx_id : positive; tx_class : Z }.
 Record qr_spec := mkQr { qr_id : positive; qr_reclaim : Z }.       (* 0 nil, 1 true, 2 false *)
+(* Queue.Spec.Guarantee.Resource and Queue.Spec.Deserved: cpu (milli) and memory (bytes), 0 = not set *)
+Record qg_spec := mkQg { qg_id : positive; qg_gcpu : Z; qg_gmem : Z; qg_dcpu : Z; qg_dmem : Z }.
 Record qlim_spec := mkQl { ql_id : positive; ql_dim : res; ql_hi : res; ql_lo : res }.
+(* capacity's queue record as read from the real plugin: deserved, guarantee, realCapability (exact) *)
+Record clim_spec := mkCl { cl_id : positive; cl_des : res; cl_guar : res; cl_real : res }.
+
+(* list decoder that refuses a length the remaining tokens cannot hold (a stale or garbled input must
+   answer bad_input, not build a huge unary number) *)
+Definition dListS {A} (p : dec A) : dec (list A) :=
+  fun l => match l with
+           | [] => None
+           | n :: r => if (n <? 0) || (Z.of_nat (length r) <? n) then None else dRep (Z.to_nat n) p r
+           end.
 
 Definition dKind : dec pkind :=
   let* k := dZ in
-  match k with 1 => ret KGang | 2 => ret KPrio | 3 => ret KConf | 4 => ret KProp | _ => fail end.
+  match k with 1 => ret KGang | 2 => ret KPrio | 3 => ret KConf | 4 => ret KProp | 5 => ret KCap | _ => fail end.
 Definition dPlug : dec plug := let* k := dKind in let* a := dBool in let* b := dBool in ret (mkPlug k a b).
 
-Definition dJobPh : dec (job_spec * Z) := let* j := dJobSpec in let* ph := dZ in ret (j, ph).
+Definition dJobPh : dec (job_spec * Z) :=
+  let* i := dPos in let* q := dPos in let* m := dZ in let* rm := dListS (dPair dPos dZ) in let* ph := dZ in
+  ret (mkJobSpec i q m rm, ph).
 
 Record spec := mkSpec {
   sp_eps : Z; sp_nodes : list node_spec; sp_queues : list queue_spec; sp_jobs : list (job_spec * Z);
   sp_tasks : list task_spec; sp_jx : list jx_spec; sp_tx : list tx_spec; sp_qr : list qr_spec;
+  sp_qg : list qg_spec;
   sp_tiers : list (list plug); sp_actions : list Z;
   sp_faults : list (positive * positive);   (* (task, node): the allocate handler reports Event.Err *)
   sp_refuse : list positive }.              (* cache.Evict refuses these tasks *)
 
 Definition dSpec : dec spec :=
-  let* e := dZ in let* ns := dList dNodeSpec in let* qs := dList dQueueSpec in let* js := dList dJobPh in
-  let* ts := dList dTaskSpec in
-  let* jx := dList (let* i := dPos in let* p := dZ in let* s := dBool in ret (mkJx i p s)) in
-  let* tx := dList (let* i := dPos in let* c := dZ in ret (mkTx i c)) in
-  let* qr := dList (let* i := dPos in let* r := dZ in ret (mkQr i r)) in
-  let* tiers := dList (dList dPlug) in
-  let* acts := dList dZ in
-  let* fl := dList (dPair dPos dPos) in
-  let* rf := dList dPos in
-  ret (mkSpec e ns qs js ts jx tx qr tiers acts fl rf).
+  let* e := dZ in let* ns := dListS dNodeSpec in let* qs := dListS dQueueSpec in let* js := dListS dJobPh in
+  let* ts := dListS dTaskSpec in
+  let* jx := dListS (let* i := dPos in let* p := dZ in let* s := dBool in ret (mkJx i p s)) in
+  let* tx := dListS (let* i := dPos in let* c := dZ in ret (mkTx i c)) in
+  let* qr := dListS (let* i := dPos in let* r := dZ in ret (mkQr i r)) in
+  let* qg := dListS (let* i := dPos in let* a := dZ in let* b := dZ in let* c := dZ in let* d := dZ in ret (mkQg i a b c d)) in
+  let* tiers := dListS (dListS dPlug) in
+  let* acts := dListS dZ in
+  let* fl := dListS (dPair dPos dPos) in
+  let* rf := dListS dPos in
+  ret (mkSpec e ns qs js ts jx tx qr qg tiers acts fl rf).
 
 Definition dQlim : dec qlim_spec :=
   let* i := dPos in let* a := dRes in let* b := dRes in let* c := dRes in ret (mkQl i a b c).
 
+Definition dClim : dec clim_spec :=
+  let* i := dPos in let* a := dRes in let* b := dRes in let* c := dRes in ret (mkCl i a b c).
+
 Definition dAttempt : dec attempt :=
-  let* n := dPos in let* cs := dList dPos in let* o := dList dPos in ret (mkAtt n cs o).
-Definition dTaskAtt : dec (positive * list attempt) := dPair dPos (dList dAttempt).
+  let* n := dPos in let* cs := dListS dPos in let* o := dListS dPos in let* qo := dListS dPos in ret (mkAtt n cs o qo).
+Definition dTaskAtt : dec (positive * list attempt) := dPair dPos (dListS dAttempt).
 Definition dChoice : dec choice :=
   let* k := dZ in
   match k with
-  | 1 => let* j := dPos in let* ts := dList dTaskAtt in ret (CInter j ts)
-  | 2 => let* j := dPos in let* t := dPos in let* a := dList dAttempt in ret (CIntra j t a)
-  | 3 => let* f := dBool in let* j := dPos in let* ts := dList dTaskAtt in ret (CReclaim f j ts)
+  | 1 => let* j := dPos in let* ts := dListS dTaskAtt in ret (CInter j ts)
+  | 2 => let* j := dPos in let* t := dPos in let* a := dListS dAttempt in ret (CIntra j t a)
+  | 3 => let* f := dBool in let* j := dPos in let* ts := dListS dTaskAtt in ret (CReclaim f j ts)
   | _ => fail
   end.
 
-Record c04_case := mkCase { cs_spec : spec; cs_lims : list qlim_spec; cs_choices : list choice }.
+Record c04_case := mkCase { cs_spec : spec; cs_lims : list qlim_spec; cs_clims : list clim_spec; cs_choices : list choice }.
 Definition dCase : dec c04_case :=
-  let* sp := dSpec in let* l := dList dQlim in let* c := dList dChoice in ret (mkCase sp l c).
+  let* sp := dSpec in let* l := dListS dQlim in let* cl := dListS dClim in let* c := dListS dChoice in ret (mkCase sp l cl c).
 
 Definition job_sys (sp : spec) (j : positive) : bool :=
   existsb (fun x => bool_decide (jx_id x = j) && jx_sys x) (sp_jx sp).
 
-Definition env_of (sp : spec) (lims : list qlim_spec) : env :=
+Definition env_of (sp : spec) (lims : list qlim_spec) (clims : list clim_spec) : env :=
   let lm : gmap positive qlim_spec := list_to_map (map (fun l => (ql_id l, l)) lims) in
+  let cm : gmap positive clim_spec := list_to_map (map (fun l => (cl_id l, l)) clims) in
   let qr : gmap positive Z := list_to_map (map (fun q => (qr_id q, qr_reclaim q)) (sp_qr sp)) in
   mkEnv (sp_tiers sp)
         (list_to_map (map (fun x => (jx_id x, jx_prio x)) (sp_jx sp)))
@@ -73,11 +93,16 @@ Definition env_of (sp : spec) (lims : list qlim_spec) : env :=
         (list_to_map (map (fun q =>
             (qs_id q,
              let rc := negb (default 0 (qr !! qs_id q) =? 2) in
+             let '(ck, cd, cg, cr) :=
+               match cm !! qs_id q with
+               | Some c => (true, cl_des c, cl_guar c, cl_real c)
+               | None => (false, empty_res, empty_res, empty_res)
+               end in
              match lm !! qs_id q with
-             | Some l => mkQx (qs_open q) rc true (ql_dim l) (ql_hi l) (ql_lo l)
-             | None => mkQx (qs_open q) rc false empty_res empty_res empty_res
+             | Some l => mkQx (qs_open q) rc true (ql_dim l) (ql_hi l) (ql_lo l) ck cd cg cr
+             | None => mkQx (qs_open q) rc false empty_res empty_res empty_res ck cd cg cr
              end)) (sp_queues sp)))
-        (sp_faults sp).
+        (sp_faults sp) [].
 
 Definition sess_of (sp : spec) : sess :=
   upd_faults (build (sp_eps sp) (sp_nodes sp) (map fst (sp_jobs sp)) (sp_tasks sp))
@@ -103,20 +128,21 @@ Fixpoint run_choices (eps : Z) (E : env) (s : sess) (cs : list choice) : list Z 
 
 Definition run_case (c : c04_case) : list Z :=
   let sp := cs_spec c in
-  let '(out, sf) := run_choices (sp_eps sp) (env_of sp (cs_lims c)) (sess_of sp) (cs_choices c) in
+  let '(out, sf) := run_choices (sp_eps sp) (env_of sp (cs_lims c) (cs_clims c)) (sess_of sp) (cs_choices c) in
   out ++ [-102] ++ eFinal sf.
 
 (* ---- the vote alone: ssn.Preemptable / ssn.Reclaimable on an arbitrary candidate list ---- *)
-Record vote_case := mkVC { vc_spec : spec; vc_lims : list qlim_spec; vc_reclaim : bool;
-                           vc_preemptor : positive; vc_cands : list positive }.
+Record vote_case := mkVC { vc_spec : spec; vc_lims : list qlim_spec; vc_clims : list clim_spec; vc_reclaim : bool;
+                           vc_preemptor : positive; vc_cands : list positive; vc_qorder : list positive }.
 Definition dVoteCase : dec vote_case :=
-  let* sp := dSpec in let* r := dBool in let* p := dPos in let* cs := dList dPos in let* l := dList dQlim in
-  ret (mkVC sp l r p cs).
+  let* sp := dSpec in let* r := dBool in let* p := dPos in let* cs := dListS dPos in let* l := dListS dQlim in
+  let* cl := dListS dClim in let* qo := dListS dPos in
+  ret (mkVC sp l cl r p cs qo).
 
 Definition run_vote (c : vote_case) : list Z :=
   let sp := vc_spec c in
   let s := sess_of sp in
-  let E := env_of sp (vc_lims c) in
+  let E := with_qorder (env_of sp (vc_lims c) (vc_clims c)) (vc_qorder c) in
   match heap s !! vc_preemptor c with
   | None => bad_input
   | Some p =>
